@@ -29,6 +29,7 @@ func main() {
 		noEv     = flag.Bool("no-evidence", false, "do not write evidence/reports (used when analysing scratch variants)")
 		verbose  = flag.Bool("v", false, "print every obligation")
 		listRule = flag.Bool("list", false, "list properties and rules")
+		jsonOut  = flag.Bool("json", false, "print the obligations as JSON instead of the report (used by the sensitivity sweep)")
 		specsOut = flag.Bool("specs", false, "print the property specifications as JSON (used to generate MANIFEST.json)")
 	)
 	flag.Parse()
@@ -172,7 +173,16 @@ func main() {
 		if *tier == "thorough" && !*noEv {
 			lint.Thorough(prog, rep, spec, root)
 		}
-		printReport(rep, *verbose)
+		if *jsonOut {
+			var all []lint.Obligation
+			for _, rr := range rep.Rules {
+				all = append(all, rr.Obligations...)
+			}
+			b, _ := json.Marshal(all)
+			fmt.Println(string(b))
+		} else {
+			printReport(rep, *verbose)
+		}
 		if !*noEv {
 			if err := lint.WriteEvidence(filepath.Join(root, "evidence", id+".json"), prog, rep, spec, seed, t0); err != nil {
 				fmt.Printf("UNDECIDED cannot write evidence: %v\n", err)
